@@ -53,9 +53,18 @@ CHECKS = {
  "C15": dict(level="exploration", technique="property-based testing (rapid): generated programs x target versions against an API-introduction index rebuilt from GOROOT/api; exhaustive grid check of the version parser/comparator",
    text="Every std function/method/literal syntax recommended in a message or fix (and not quoted from the source) is looked up in GOROOT/api and must not be newer than the configured target (1.13..1.25, both spellings); no version behaves as the newest; the parser is compared with numeric ordering on the full 31x31 grid.",
    note="GOROOT/api is the reference; methods are looked up by the minimum version over receiver types (can only under-report).", ref="4/C15"),
+ "C09": dict(level="exploration", technique="property-based testing (rapid): generated programs with marker statements; every machine fix and every recipe-matched quoted rewrite is applied and judged by parser, go/types, marker survival, type preservation and re-analysis",
+   text="Over generated programs (kernels of every fix-carrying / code-quoting checker under mutations) each suggested replacement is substituted: it must parse in the replaced category, the file must parse and type-check, unrelated marker statements must survive, the replaced expression must keep its type, and re-analysis of the fixed file must not repeat the diagnostic.",
+   note="Quoted rewrites are recovered by per-checker recipes (message = prefix+A+infix+B+suffix); unmatched recipes are 'not checked'; unused imports after an edit are tolerated, naming an unimported package is not.", ref="4/C09"),
+ "C10": dict(level="exploration", technique="property-based differential testing (rapid) with a compile-and-run oracle: original vs rewritten kernel function executed by the Go toolchain over complete grids, comparing results, side-effect traces and panics",
+   text="85 executable kernels (20 rewrite families, pure and tracing operands of int/uint/float/named/string/[]byte types, all literal spellings) are analysed; every rewrite proposed by an equivalence-claiming checker is applied and both versions are compiled into one program and run over the cross product of the relevant parameter grids (incl. NaN, +-Inf, +-0, empty/nil values); results, trace order and panics must match.",
+   note="The Go compiler and runtime are the reference; integer overflow inputs are excluded by grid construction; variants that do not compile are C09's subject.", ref="4/C10"),
+ "C12": dict(level="exploration", technique="property-based testing (rapid) with an instrumented compile-and-run oracle: the flagged expression of every definite-claim diagnostic is wrapped in a claim monitor and executed over complete grids",
+   text="Kernels for sloppyLen, badCond, offBy1, nilValReturn, dupSubExpr/dupArg and caseOrder (incl. user-defined len, impure operands with changing values, maps, nil cases) are analysed; each definite claim (always true/false, always panics, always nil, same value, unreachable case) is compiled into a monitor and must hold in every execution of the grid.",
+   note="Only definite claims are judged ('suspicious' is not a claim); the Go runtime is the reference.", ref="4/C12"),
 }
 
-NOT_YET = {}
+NOT_YET = {"C04": "check under construction in this revision (race-detector harness); see DESIGN.md section 4/C04"}
 
 def main():
     props = [json.loads(l) for l in open(os.path.join(ROOT, "properties.jsonl"))]
